@@ -489,6 +489,10 @@ func (r *renderer) allocContent(a *ssa.Alloc, d int) string {
 		nWhole := 0
 		for _, rf := range referrersOf(a) {
 			if st, ok := rf.(*ssa.Store); ok && st.Addr == ssa.Value(a) {
+				// `return rerr` with a named result stores the variable into itself: not a value
+				if u, ok := st.Val.(*ssa.UnOp); ok && u.Op == token.MUL && u.X == ssa.Value(a) {
+					continue
+				}
 				nWhole++
 				base = r.val(st.Val, d+1)
 			}
